@@ -250,6 +250,26 @@ pub struct Case {
   pub typ: Option<String>,
   pub header_extra: bool,
   pub custom: Map<String, Value>,
+  /// Where the registered-claim duplicates of credential properties are spelled (see `ClaimSpelling`).
+  #[serde(default)]
+  pub claim_spelling: ClaimSpelling,
+}
+
+/// `serialize_jwt` moves `expirationDate`, `id` and the subject id out of `vc` into `exp`, `jti` and `sub`. A foreign
+/// producer may leave one of them inside `vc` only, or spell them in both places.
+#[derive(Debug, Clone, Copy, PartialEq, Eq, Serialize, Deserialize, Default)]
+pub enum ClaimSpelling {
+  /// As `serialize_jwt` writes them.
+  #[default]
+  Library,
+  /// `vc.expirationDate` and no `exp`.
+  ExpiryInVcOnly,
+  /// `vc.id` and no `jti`.
+  IdInVcOnly,
+  /// `vc.credentialSubject.id` and no `sub`.
+  SubjectInVcOnly,
+  /// `exp`/`jti`/`sub`/`iss`/issuance claims and equal `vc.expirationDate`/`vc.id`/`vc.credentialSubject.id`/`vc.issuer`.
+  Redundant,
 }
 
 const SUBJECT_ID: &str = "did:vcheck:subject1";
@@ -349,6 +369,15 @@ impl Case {
   }
   fn subject_id(&self) -> Option<&'static str> {
     (self.subject_has_id && self.structure != Structure::EmptySubject).then_some(SUBJECT_ID)
+  }
+  /// A claim that `serialize_jwt` writes as a registered claim is spelled inside `vc` only.
+  fn foreign_claim_spelling(&self) -> bool {
+    match self.claim_spelling {
+      ClaimSpelling::Library | ClaimSpelling::Redundant => false,
+      ClaimSpelling::ExpiryInVcOnly => self.dates.expiry().is_some(),
+      ClaimSpelling::IdInVcOnly => true,
+      ClaimSpelling::SubjectInVcOnly => self.subject_id().is_some(),
+    }
   }
   fn holder_url(&self) -> Option<&'static str> {
     self
@@ -601,6 +630,19 @@ impl Case {
       admits: &["IdentifierMismatch", "SignerUrl", "DocumentMismatch"],
     });
 
+    // -- claims spelled inside `vc` only: the statement does not say whether such a token is acceptable (the library
+    //    refuses it while decoding, for both entry points); if it is accepted everything else still has to hold and the
+    //    credential handed back has to be the signed one.
+    if self.foreign_claim_spelling() {
+      out.push(Cond {
+        name: "claim-spelling",
+        stage: Stage::Signature,
+        state: Tri::Open,
+        accepted_sig: String::new(),
+        admits: &["CredentialStructure"],
+      });
+    }
+
     if !self.is_validate() {
       return out;
     }
@@ -839,6 +881,40 @@ pub fn check(case: &Case, obs: &mut Obs) -> CheckResult {
     }
     for (k, v) in &case.custom {
       o.insert(k.clone(), v.clone());
+    }
+    let only = |o: &mut Map<String, Value>, claim: &str, keep: bool| -> Option<Value> {
+      if keep {
+        o.get(claim).cloned()
+      } else {
+        o.remove(claim)
+      }
+    };
+    let sp = case.claim_spelling;
+    let redundant = sp == ClaimSpelling::Redundant;
+    let mut moved = false;
+    if sp == ClaimSpelling::ExpiryInVcOnly || redundant {
+      if only(o, "exp", redundant).is_some() {
+        o["vc"]["expirationDate"] = credential_json["expirationDate"].clone();
+        moved = true;
+      }
+    }
+    if sp == ClaimSpelling::IdInVcOnly || redundant {
+      if let Some(id) = only(o, "jti", redundant) {
+        o["vc"]["id"] = id;
+        moved = true;
+      }
+    }
+    if sp == ClaimSpelling::SubjectInVcOnly || redundant {
+      if let Some(sub) = only(o, "sub", redundant) {
+        o["vc"]["credentialSubject"]["id"] = sub;
+        moved = true;
+      }
+    }
+    if redundant {
+      o["vc"]["issuer"] = credential_json["issuer"].clone();
+    }
+    if moved || redundant {
+      obs.label(format!("claims:{sp:?}"));
     }
   }
   let mut extra = Map::new();
@@ -1222,6 +1298,13 @@ fn case_strategy() -> impl Strategy<Value = Case> {
     prop_oneof![2 => Just(Some("JWT".to_string())), 1 => Just(None), 1 => Just(Some("vc+ld+jwt".to_string()))],
     prop::bool::weighted(0.3),
     custom_claims_strategy(),
+    prop_oneof![
+      16 => Just(ClaimSpelling::Library),
+      2 => Just(ClaimSpelling::ExpiryInVcOnly),
+      1 => Just(ClaimSpelling::IdInVcOnly),
+      1 => Just(ClaimSpelling::SubjectInVcOnly),
+      2 => Just(ClaimSpelling::Redundant),
+    ],
   );
   (selection, content, misc).prop_map(
     |(
@@ -1238,7 +1321,7 @@ fn case_strategy() -> impl Strategy<Value = Case> {
         status_check,
         (rev, rev2, revoke_hint),
       ),
-      (all_errors, typ, header_extra, custom),
+      (all_errors, typ, header_extra, custom, claim_spelling),
     )| {
       // sometimes aim the status index at a member of the bitmaps so that "revoked" is not left to chance
       let status = match (status, revoke_hint) {
@@ -1278,6 +1361,7 @@ fn case_strategy() -> impl Strategy<Value = Case> {
         typ,
         header_extra,
         custom,
+        claim_spelling,
       }
     },
   )
@@ -1323,6 +1407,7 @@ fn base_case(target: M) -> Case {
     typ: Some("JWT".into()),
     header_extra: false,
     custom: Map::new(),
+    claim_spelling: ClaimSpelling::Library,
   }
 }
 
@@ -1380,6 +1465,10 @@ const DEVIATIONS: &[Deviation] = &[
       *expiry = None
     }
   },
+  |c| c.claim_spelling = ClaimSpelling::ExpiryInVcOnly,
+  |c| c.claim_spelling = ClaimSpelling::IdInVcOnly,
+  |c| c.claim_spelling = ClaimSpelling::SubjectInVcOnly,
+  |c| c.claim_spelling = ClaimSpelling::Redundant,
   |c| c.issuance_claims = IssuanceClaims::Iat,
   |c| c.issuance_claims = IssuanceClaims::Both { iat: 1_700_000_001 },
   |c| c.issuance_claims = IssuanceClaims::Both { iat: 1_600_000_000 },
